@@ -66,6 +66,7 @@ type Finding struct {
 	UFTables map[string][][]uint64 // name -> rows of args..., result
 	Decs     []Dec
 	Sched    []int
+	Partners []int
 	Trace    []string
 	Entry    string
 	Observed []string // vObserve lines predicted under this model
@@ -97,6 +98,7 @@ type Run struct {
 	multi       bool
 	preemptions int
 	sched       []int
+	schedPartner []int
 	timers      []*timerEnv
 	globals     map[*ssa.Global]*Slot
 	nextObj     int
@@ -451,6 +453,7 @@ func (r *Run) extractModel(o Outcome, label, msg string) *Finding {
 	}
 	f.Decs = append([]Dec(nil), r.log...)
 	f.Sched = append([]int(nil), r.sched...)
+	f.Partners = append([]int(nil), r.schedPartner...)
 	return f
 }
 
